@@ -12,7 +12,9 @@ FIRST = {  # what the checks reported when the seed was first run, before any st
     'C01e': 'caught', 'C02e': 'missed', 'C03e': 'caught', 'C04e': 'caught', 'C05e': 'missed (masked by a known finding)', 'C06e': 'hung',
     'C07e': 'caught', 'C08e': 'caught', 'C09e': 'missed', 'C10e': 'caught', 'C11e': 'tie broke, no input', 'C12e': 'tie broke, no input',
     'C13e': 'tie broke, no input', 'C14e': 'caught', 'C15e': 'missed', 'C16e': 'missed', 'C17e': 'caught', 'C18e': 'caught', 'C19e': 'missed',
-    'C20e': 'caught'}
+    'C20e': 'caught',
+    'C01f': 'missed', 'C02f': 'caught', 'C03f': 'caught', 'C09f': 'caught', 'C10f': 'caught', 'C13f': 'caught', 'C15f': 'caught',
+    'C16f': 'missed', 'C17f': 'caught', 'C18f': 'caught'}
 SHORT = {
     'C02d': '2021 Schedule A line 8e drops line 8d', 'C04d': 'unset enumeration lines dropped from the returned solution',
     'C06d': 'waiters of a REFUSED input are released (meet moved out of the if)', 'C08d': '2021 EIC one-child limits transposed between MFJ and the others',
@@ -30,7 +32,14 @@ SHORT = {
     'C13e': 'input file parser created with interpolation on', 'C14e': 'EnumField.to_string writes None for a blank member',
     'C15e': '2022 Form 8606 line 15a subtracts line 13 instead of 12', 'C16e': '2023 line 25c: Additional Medicare withholding REPLACES other withholding',
     'C17e': "2023 Form 8889 valid_instances says 'taxpayer', the constructor wants 'you'", 'C18e': '2023 filing-status check boxes use the 2022 export values',
-    'C19e': 'fill_pdfs reads the solution with interpolation on', 'C20e': 'input file parser gets inline # comments'}
+    'C19e': 'fill_pdfs reads the solution with interpolation on', 'C20e': 'input file parser gets inline # comments',
+    'C01f': '`habutax solve` names only the FIRST kind of problem (if/elif)', 'C02f': '2022 NC Schedule A line 7d subtracts the wrong way round',
+    'C03f': 'a line that hit not_implemented() is stored as its blank value and its waiters are released',
+    'C09f': '2022 Schedule B line 8 (foreign trust) returns the answer instead of not_implemented()',
+    'C10f': '2023 Credit Limit Worksheet A reads Schedule 3 lines through i[...] (RecursionError)',
+    'C13f': 'the needed_by list shown at the prompt accumulates over the questions of a pass',
+    'C15f': '2022 NC D-400 line 26a (tax due) computed as payments minus tax', 'C16f': '2021 Schedule A line 5a adds 1099-G box 4 (FEDERAL withholding) to the state taxes',
+    'C17f': 'duplicate line name in the 2023 NC D-400', 'C18f': '2023 Schedule 8812: the two widgets of line 16b transposed'}
 
 
 def main(rounds):
